@@ -49,7 +49,37 @@ var g4 = func() int { return d.PF(2008) }()
 // @implements d.I
 type A3s struct{}
 
+type (
+	// A4g sits in a declaration group and claims an interface it does not implement.
+	// @implements d.I
+	A4g struct{}
+
+	// A5g is a second member of the group, with an unknown interface.
+	// @implements d.Nope
+	A5g struct{}
+)
+
+var gPT d.PT
+
 var gLast = d.TT{X: 2009}
+"""
+
+# a second file of the same package that names the once-per-file types again: every file gets its own report
+SHAPES2 = """package s
+
+import "m/d"
+
+func again() {
+	_ = d.TT{X: 2201}
+	var v d.PT
+	_ = v
+}
+
+func againLater() {
+	_ = d.TT{X: 2202}
+	var w d.PT
+	_ = w
+}
 """
 
 
@@ -112,7 +142,8 @@ def programs0(rng, n):
     p["pkgs"][0]["files"].append({"name": "d/recv.go", "src": RECV})
     # a file that the default configuration excludes by its *name* (not first of its package), full of reportable code
     excluded = "package s\n\nimport \"m/d\"\n\nfunc inExcluded(p *d.T) {\n\tp.X = 2101\n\t_ = d.T{X: 2102}\n\t_ = d.TF(2103)\n\t_ = d.PF(2104)\n}\n"
-    p["pkgs"].append({"path": "m/s", "name": "s", "files": [{"name": "s/shapes.go", "src": SHAPES}, {"name": "s/wire_testdata.go", "src": excluded}]})
+    p["pkgs"].append({"path": "m/s", "name": "s", "files": [{"name": "s/shapes.go", "src": SHAPES}, {"name": "s/shapes2.go", "src": SHAPES2},
+                                                              {"name": "s/wire_testdata.go", "src": excluded}]})
     out.append(p)
     for i in range(n):
         v = gen_xpkg.variant(rng)
